@@ -1,5 +1,6 @@
 """C04 - JSON / dict round trip (J1-J3)."""
 from . import jsonrules, presence
+from .c15 import rule_Q4
 
 PROP = "C04"
 TECHNIQUE = "E2 specialisation of to_dict and _from_dict_init over (type x container shape); transform-class extraction on the data path; inverse catalogue"
@@ -14,7 +15,8 @@ RULE_TEXT = "obligation = (rule, shape, type); evaluations = abstract paths; non
 
 
 def run(ctx) -> None:
-    ctx.rules_run += ["J1", "J2", "J3"]
+    ctx.rules_run += ["J1", "J2", "J3", "Q4"]
+    rule_Q4(ctx)     # Duration text: emitter and parser agree on the sign of the fraction
     jsonrules.rule_J1(ctx)
     jsonrules.rule_J2(ctx)
     presence.rule_D4(ctx, "J3")
